@@ -38,6 +38,8 @@ def dag_matrix(p, ch, labeling="bin", dtype=float):
                 w = _GENERIC[e % len(_GENERIC)]
             elif labeling == "int":
                 w = (-2, 1, 3)[e % 3]
+            elif labeling == "tiny":                  # an edge is an entry != 0, however small (down to a subnormal)
+                w = (1e-13, -1e-15, 1e-200, -3e-310)[e % 4]
             elif labeling.startswith("signs:"):       # every +-1 assignment: bit e of the mask set => weight -1
                 w = -1 if (int(labeling[6:]) >> e) & 1 else 1
             else:
